@@ -7,6 +7,24 @@ ROOT = os.path.dirname(os.path.dirname(os.path.abspath(__file__)))
 ALL = ["C%02d" % i for i in range(1, 21)]
 
 CLAIMED = {
+    "C06": dict(
+        technique="Coq proof (fold/induction over segment lists) on the per-byte parser model + differential run of the extracted model over all segmentations",
+        text="Theorems in coq/http/C06.v: for the executable model of nbhttp.Parser (one step function per parser state, client and server side), "
+             "every segmentation of every byte stream yields the same events, error and final state as one piece; with a read limit the run equals the "
+             "unlimited one or ends in ErrTooLong after a prefix of its events. The model is tied to the code on every run by feeding generated and mutated "
+             "message streams in one piece, byte-wise, single cuts and multi-cuts to both and comparing events, error class and retained length; the "
+             "implementation-only oracle (one piece vs. segmented) runs on the same cases.",
+        note="Trusted: Coq kernel, extraction (ExtrOcamlBasic), OCaml driver, Go harness, overlay accessor. The model abstracts the index arithmetic of "
+             "resume/re-cache (tok = data[start:i]); that abstraction is validated by the differential run on every segmentation, not proved.",
+        design="4/C06, Appendix B, I"),
+    "C08": dict(
+        technique="Coq proof (invariants on the parser model: retained length, error finality, rejection lemmas) + differential run incl. malformed stream",
+        text="Theorems in coq/http/C08.v: after an error nothing further is reported; retained bytes <= max(ReadLimit, longest read); a missing LF (8 places) or CR "
+             "(2 places) is an error; Transfer-Encoding other than a single 'chunked', non-numeric/negative/overflowing Content-Length and chunk sizes are "
+             "rejected. Panics/hangs in the Go code cannot be excluded by a theorem about a total model: they are covered by the differential run "
+             "(no recovered panic, no slow call, on ~20k generated/mutated cases per quick run) - partial in that respect.",
+        note="Partial: no-panic/no-hang is tested, not proved; the MaxHTTPBodySize bound is checked by the C07 harness on the real processors. Trusted: as C06.",
+        design="4/C08"),
     "C20": dict(
         technique="Coq proof (invariant by induction over op sequences, all oracle answers) + differential run of the extracted model",
         text="Theorems in coq/mempool/C20.v about the executable model of mempool.MemPool: length, content preservation, "
